@@ -317,4 +317,100 @@ theorem stageData_keeps_closed {E : Env H} {cfg : Cfg} (hstrict : StrictPresence
       have := set_keeps_closed hstrict hcl hrange hsr
       cases o <;> (simp only; rw [blockTree_set_same]; exact this)
 
+omit [DecidableEq H] in
+theorem collect_covers {needed : List Nat} {f : Nat → Option H} {hs : List (Nat × H)}
+    (h : collect needed f = some hs) : ∀ i ∈ needed, ∃ w, (i, w) ∈ hs := by
+  induction needed generalizing hs with
+  | nil => intro i hi; cases hi
+  | cons a rest ih =>
+    intro i hi
+    unfold collect at h
+    cases hfa : f a with
+    | none => rw [hfa] at h; simp at h
+    | some va =>
+      cases hr : collect rest f with
+      | none => rw [hfa, hr] at h; simp at h
+      | some l =>
+        rw [hfa, hr] at h
+        simp only at h
+        injection h with h
+        subst h
+        cases List.mem_cons.mp hi with
+        | inl e => subst e; exact ⟨va, by simp⟩
+        | inr e => obtain ⟨w, hw⟩ := ih hr i e; exact ⟨w, List.mem_cons_of_mem _ hw⟩
+
+/-- after an accepted `_satisfy_block_hash_tree` the share's block hash tree holds the whole uncle chain of the
+    segment's leaf and the leaf itself -/
+theorem stageBlockHashes_accept_full {E : Env H} {cfg : Cfg} (hstrict : StrictPresence E.ops cfg)
+    (pick : List Nat → Nat) (shnum segnum : Nat) (v : View H) (nd : Node H) {u : UEB H} {sz : Sizes}
+    (hk : nd.known = some (u, sz))
+    (hL : firstLeafNum sz.numSegs + segnum < (nd.blockTree shnum sz.numSegs).length)
+    (hacc : (stageBlockHashes E cfg pick shnum segnum v nd).1 = none) :
+    ∀ i, i ∈ neededFor (firstLeafNum sz.numSegs + segnum) ∨ i = firstLeafNum sz.numSegs + segnum →
+      get ((stageBlockHashes E cfg pick shnum segnum v nd).2.blockTree shnum sz.numSegs) i ≠ none := by
+  have hmem : ∀ i, i ∈ neededFor (firstLeafNum sz.numSegs + segnum) ∨ i = firstLeafNum sz.numSegs + segnum →
+      i ∈ neededFor (firstLeafNum sz.numSegs + segnum) ++ [firstLeafNum sz.numSegs + segnum] := by
+    intro i hi
+    cases hi with
+    | inl h => exact List.mem_append_left _ h
+    | inr h => exact List.mem_append_right _ (by simp [h])
+  have hneeded : neededHashes? (nd.blockTree shnum sz.numSegs) (firstLeafNum sz.numSegs) segnum true =
+      some ((neededFor (firstLeafNum sz.numSegs + segnum) ++ [firstLeafNum sz.numSegs + segnum]).filter
+        (fun i => (get (nd.blockTree shnum sz.numSegs) i).isNone)) := by
+    unfold neededHashes? completeNeededHashes? neededFor?
+    have : ¬ (firstLeafNum sz.numSegs + segnum ≥ (nd.blockTree shnum sz.numSegs).length) := by omega
+    simp [this]
+  unfold stageBlockHashes at hacc ⊢
+  rw [hk] at hacc ⊢
+  simp only at hacc ⊢
+  rw [hneeded] at hacc ⊢
+  generalize hnd : ((neededFor (firstLeafNum sz.numSegs + segnum) ++ [firstLeafNum sz.numSegs + segnum]).filter
+        (fun i => (get (nd.blockTree shnum sz.numSegs) i).isNone)) = needed at hacc ⊢
+  cases needed with
+  | nil =>
+    simp only
+    intro i hi hnone
+    have : i ∈ ((neededFor (firstLeafNum sz.numSegs + segnum) ++ [firstLeafNum sz.numSegs + segnum]).filter
+        (fun i => (get (nd.blockTree shnum sz.numSegs) i).isNone)) :=
+      List.mem_filter.mpr ⟨hmem i hi, by simp [hnone]⟩
+    rw [hnd] at this
+    cases this
+  | cons a rest =>
+    simp only at hacc ⊢
+    cases hc : collect (a :: rest) v.blockHashes with
+    | none => rw [hc] at hacc; simp at hacc
+    | some hs =>
+      rw [hc] at hacc
+      simp only at hacc ⊢
+      cases hsr : setHashes E.ops cfg pick (firstLeafNum sz.numSegs) (nd.blockTree shnum sz.numSegs) hs [] with
+      | mk o t' =>
+        rw [hsr] at hacc
+        cases o with
+        | ok =>
+          simp only
+          rw [blockTree_set_same]
+          obtain ⟨new, st, hm, hres, e⟩ := setHashes_ok hsr
+          have hnew : new = hs := by simp [mergeLeaves] at hm; exact hm.symm
+          subst hnew
+          intro i hi
+          cases hg : get (nd.blockTree shnum sz.numSegs) i with
+          | some w =>
+            have := (tryBody_reach (E.ops.withCfg cfg) pick (nd.blockTree shnum sz.numSegs) new)
+            rw [hres] at this
+            have := Reach.mono hstrict this (j := i) (v := w) hg
+            rw [← e]
+            intro hn
+            simp [stOf] at this
+            rw [this] at hn; cases hn
+          | none =>
+            have hin : i ∈ a :: rest := by
+              rw [← hnd]; exact List.mem_filter.mpr ⟨hmem i hi, by simp [hg]⟩
+            obtain ⟨w, hw⟩ : ∃ w, (i, w) ∈ new := collect_covers hc i hin
+            have := tryBody_stored hstrict pick _ new hres i w hw
+            rw [← e, this]; simp
+        | badHash => simp at hacc
+        | notEnough => simp at hacc
+        | indexError => simp at hacc
+        | internal => simp at hacc
+
 end Tahoe.Integrity
